@@ -236,7 +236,9 @@ def gen_wf(rng, op):
         fields['flags'] = fl
         tb = b''
         q['flags2'] = None
-        if ext and rng.random() < 0.8:
+        # the 48-byte 7.36 tail: normally only with the marker, but also (rarely sent, still a legal byte string)
+        # without it -- the server must then ignore it
+        if (ext and rng.random() < 0.8) or (not ext and rng.random() < 0.25):
             f2 = rng.getrandbits(32) if rng.random() < 0.6 else (1 << rng.randrange(32))
             q['flags2'] = f2; tb = struct.pack('<I', f2) + bytes(44)
         if rng.random() < 0.6: fields['_want'] = rng.getrandbits(64)
